@@ -64,6 +64,7 @@ SNAP_FIELDS = {"C09": ["mask", "state", "r", "done", "steps", "K", "L", "U"],
                "C13": ["mask", "r", "steps", "K", "L", "U"],
                "C08": ["mask", "r", "steps", "K", "L", "U"], "C07": ["mask", "r", "steps", "K", "L", "U"],
                "C16": ["mask", "state", "r", "steps", "K", "L", "U"]}
+SHARED_SOLVERS: dict = {}       # one live solver object per kind, reused across environments (see op_solve)
 STEP_FIELDS = {"C09": ["obs", "r", "done", "c"], "C13": ["r", "c"], "C08": ["r", "c"], "C07": ["r", "c"], "C16": ["obs", "r", "c"]}
 
 _MODS: dict = {}
@@ -520,7 +521,16 @@ class Case:
             rew[i] = -o["gap"] if o["gap"] is not None else None
         before = self.snapshot()
         try:
-            solver = M.SOLVERS[which](SimpleNamespace(seed=seed))
+            # half of the calls reuse ONE solver object per kind for the whole run (as `solve` does across repetitions and
+            # environments): state a solver keeps between calls / environments shows only then. The random solver keeps its
+            # own generator per call so that its draw stays an input of the model.
+            if which != "random" and seed % 2 == 0:
+                solver = SHARED_SOLVERS.get(which)
+                if solver is None:
+                    solver = SHARED_SOLVERS[which] = M.SOLVERS[which](SimpleNamespace(seed=seed))
+                self.res.count("solve:shared-solver-object")
+            else:
+                solver = M.SOLVERS[which](SimpleNamespace(seed=seed))
             act = int(solver.next_step(env))
             ans = f"a={act}"
         except Exception as e:
